@@ -84,6 +84,7 @@ func (c *Case) newWorld() (*world, string) {
 	files["/other"] = "other {{ n }}"
 	files["/third"] = "third"
 	set, l := px.NewSet(files)
+	c04.SetGlobals(set)
 	set.Options.TrimBlocks, set.Options.LStripBlocks = c.Trim, c.Trim
 	l.OnGet = func(p string) { vsched.PointHere("loader.Get " + p) }
 	tpl, out := px.CompileFile(set, "/main")
